@@ -54,6 +54,10 @@ func Run(opts *Options) (int, error) {
 
 	defer util.RunAtExitFuncs()
 
+	// Temporary files of commands that have not finished when we exit
+	allowTempFiles(true)
+	defer allowTempFiles(false)
+
 	// Output channel given
 	if opts.Output != nil {
 		opts.Printer = func(str string) {
